@@ -39,19 +39,44 @@ func run(r *common.Run) error {
 	} else {
 		c.an = an
 	}
-	if r.Replay != "" {
-		lines, err := common.ReplayLines(r.Replay)
-		if err != nil {
-			return err
+	child, group, err := childFromEnv()
+	if err != nil {
+		return err
+	}
+	if child != nil {
+		// child process: execute one group on the real library, report through the pipe files
+		c.child = child
+		defer child.results.Close()
+		switch group {
+		case "fuzz":
+			c.corpus()
+			c.systematic()
+			c.random()
+		case "scen":
+			c.scenarios()
+		case "replay":
+			lines, err := common.ReplayLines(os.Getenv("C09_REPLAYFILE"))
+			if err != nil {
+				return err
+			}
+			return c.replay(lines)
+		default:
+			return fmt.Errorf("unknown child group %q", group)
 		}
-		return c.replay(lines)
+		return nil
+	}
+	if r.Replay != "" {
+		return c.runChild("replay", "C09_REPLAYFILE="+r.Replay)
 	}
 	c.primitives()
 	c.skeletons()
-	c.corpus()
-	c.systematic()
-	c.random()
-	return nil
+	r.Mark("case fuzz")
+	if err := c.runChild("fuzz"); err != nil {
+		return err
+	}
+	r.Exhaustive = append(r.Exhaustive, "every single-step mutation (noise child at every position, every attribute dropped/emptied/garbled, every child dropped, every element stripped) of every stanza template and every reply template")
+	r.Mark("case scenarios")
+	return c.runChild("scen")
 }
 
 // primitives ties the kind semantics of the skeleton IR to real Go on the whole finite
@@ -260,7 +285,6 @@ func (c *ctx) systematic() {
 			c.helper(h, "error", m.String(), "err-single-"+class)
 		})
 	}
-	c.r.Exhaustive = append(c.r.Exhaustive, "every single-step mutation (noise child at every position, every attribute dropped/emptied/garbled, every child dropped, every element stripped) of every stanza template and every reply template")
 }
 
 // random: multi-step mutations of the templates and free-form stanzas.
